@@ -107,8 +107,14 @@ class Builder:
                 enq = args["enqueue"]
                 for it in items:
                     enq(it)
-                for g, it in checks:
-                    if args["check"](g):
+                for ci, (g, it) in enumerate(checks):
+                    try:
+                        ok = args["check"](g)
+                    except BaseException as e:
+                        rec.rec("ucall", "enq-check", name, ci, "exc:" + type(e).__name__)
+                        raise
+                    rec.rec("ucall", "enq-check", name, ci, bool(ok))
+                    if ok:
                         enq(it)
             return f_enq
         if k == "raise":
